@@ -125,7 +125,7 @@ def _oracle_default(tag, th, w, wb, v, nd, nb, nm, extended=False, with_mc_weigh
 
 def _pay(kind, cfg, **kw):
     def f(m):
-        return dict(kind=kind, cfg=list(cfg), model={k: float(v) for k, v in m.items() if not k.startswith(("sqrt#", "uf_"))}, **kw)
+        return dict(kind=kind, cfg=list(cfg), model={k: float(v) for k, v in m.items() if not k.startswith("sqrt#")}, **kw)
 
     return f
 
